@@ -6,6 +6,7 @@ import (
 	"fmt"
 	"go/token"
 	"go/types"
+	"os"
 	"sort"
 	"strings"
 
@@ -762,6 +763,7 @@ func runC20(r *Run, verifDir string) {
 	if nNew < 2 {
 		r.Unk("C20.E5", "ttlv/new-extension", token.NoPos, "%d allocations of the version state found, 2 expected", nNew)
 	}
+	c20E7(r)
 	// information: server configuration state (not codec)
 	for _, w := range writes {
 		if idOf(w.fn).pkg == srvPath && !isInitFunc(w.fn) {
@@ -793,4 +795,141 @@ func c03AppendOnlyAs(r *Run, rule string) {
 	if bad == 0 {
 		r.OK(rule, "ttlvWriter/append-only", token.NoPos, "the binary writer's buffer grows only by appending (%d sites): a cleared, reused buffer cannot leak earlier content", len(sub.Obls))
 	}
+}
+
+// c20E7: storage handed back to a sync.Pool is not used any more. A function that puts an object into a pool (directly
+// or by defer) must not return, store or send anything that still points into that object — the bytes of a pooled
+// encoder's buffer, say: the next borrower overwrites them while the first caller is still writing them out, so what
+// one stream sends depends on what another one encodes at the same time.
+func c20E7(r *Run) {
+	r.Rule("C20.E7", "nothing derived from an object outlives its return to a sync.Pool (no result, store or send still pointing into it)", 0)
+	nPut := 0
+	for _, fn := range r.P.OwnFuncs() {
+		if !strings.HasPrefix(idOf(fn).pkg, modPath) {
+			continue
+		}
+		var pooled []ssa.Value
+		allInstrs(fn, func(in ssa.Instruction) {
+			if c := callOf(in); c != nil && callID(c).is("sync", "Pool", "Put") && len(c.Args) == 2 {
+				pooled = append(pooled, c.Args[1])
+			}
+		})
+		if len(pooled) == 0 {
+			continue
+		}
+		// the pooled object and its aliases
+		obj := map[ssa.Value]bool{}
+		var addObj func(v ssa.Value, d int)
+		addObj = func(v ssa.Value, d int) {
+			if d > 5 || obj[v] {
+				return
+			}
+			obj[v] = true
+			switch x := v.(type) {
+			case *ssa.MakeInterface:
+				addObj(x.X, d+1)
+			case *ssa.TypeAssert:
+				addObj(x.X, d+1)
+			case *ssa.ChangeInterface:
+				addObj(x.X, d+1)
+			case *ssa.Phi:
+				for _, e := range x.Edges {
+					addObj(e, d+1)
+				}
+			case *ssa.Extract:
+				addObj(x.Tuple, d+1)
+			}
+		}
+		for _, v := range pooled {
+			addObj(v, 0)
+		}
+		// forward: everything obtained from the object
+		changed := true
+		for changed {
+			changed = false
+			allInstrs(fn, func(in ssa.Instruction) {
+				// a local cell (a named result spilled around a defer, a variable) holding such a value
+				if st, isSt := in.(*ssa.Store); isSt && obj[st.Val] && pointerLike(st.Val.Type()) {
+					if al, isLocal := st.Addr.(*ssa.Alloc); isLocal && !obj[al] {
+						obj[al], changed = true, true
+					}
+				}
+				v, ok := in.(ssa.Value)
+				if !ok || obj[v] {
+					return
+				}
+				for _, op := range in.Operands(nil) {
+					if *op == nil || !obj[*op] {
+						continue
+					}
+					switch x := in.(type) {
+					case *ssa.TypeAssert, *ssa.Extract, *ssa.MakeInterface, *ssa.ChangeInterface, *ssa.ChangeType, *ssa.Slice, *ssa.FieldAddr, *ssa.IndexAddr, *ssa.Phi:
+						obj[v], changed = true, true
+					case *ssa.UnOp:
+						if x.Op == token.MUL && pointerLike(v.Type()) {
+							obj[v], changed = true, true
+						}
+					case *ssa.Call:
+						id := callID(&x.Call)
+						if (id.pkg == "slices" || id.pkg == "bytes") && id.name == "Clone" {
+							continue
+						}
+						if b, isB := x.Call.Value.(*ssa.Builtin); isB && b.Name() != "append" {
+							continue
+						}
+						if pointerLike(v.Type()) {
+							obj[v], changed = true, true
+						}
+					}
+				}
+			})
+		}
+		for _, in0 := range pooled {
+			_ = in0
+		}
+		nPut++
+		if os.Getenv("KMIPSA_DEBUG_E7") != "" {
+			for v := range obj {
+				fmt.Fprintf(os.Stderr, "E7 obj %s = %s\n", v.Name(), v.String())
+			}
+		}
+		key := fnKey(fn) + "/pool-put"
+		bad, what := token.NoPos, ""
+		allInstrs(fn, func(in ssa.Instruction) {
+			switch x := in.(type) {
+			case *ssa.Return:
+				for _, res := range x.Results {
+					if obj[res] && pointerLike(res.Type()) {
+						bad, what = posOr(x.Pos(), fn.Pos()), "returns"
+					}
+				}
+			case *ssa.Store:
+				if obj[x.Val] && pointerLike(x.Val.Type()) && !obj[x.Addr] {
+					if _, local := x.Addr.(*ssa.Alloc); !local {
+						bad, what = posOr(x.Pos(), fn.Pos()), "stores"
+					}
+				}
+			case *ssa.Send:
+				if obj[x.X] {
+					bad, what = posOr(x.Pos(), fn.Pos()), "sends"
+				}
+			}
+		})
+		if bad.IsValid() {
+			r.Bad("C20.E7", key, bad, "%s %s something that still points into an object it hands back to a sync.Pool: the next borrower reuses that storage while it is still in use — two concurrent encodings (or sends) then overwrite each other's bytes", fnKey(fn), what)
+		} else {
+			r.OK("C20.E7", key, fn.Pos(), "nothing obtained from the pooled object is returned, stored or sent")
+		}
+	}
+	if nPut == 0 {
+		r.OK("C20.E7", "module/pool-put", token.NoPos, "no sync.Pool is used by the module")
+	}
+}
+
+func pointerLike(t types.Type) bool {
+	switch t.Underlying().(type) {
+	case *types.Pointer, *types.Slice, *types.Map, *types.Chan, *types.Interface, *types.Signature:
+		return true
+	}
+	return false
 }
